@@ -5,7 +5,7 @@ CONSTANTS
     Handlers = {"h1", "h2"}
     Publishers = {"p1", "p2"}
     MaxCollects = 2
-    MaxRegOps = 4
+    MaxRegOps = 3
 INVARIANTS
     TypeOK
     TopicLevelIsMax
